@@ -47,7 +47,7 @@ def gen_real_case(seed):
         sched["p_line"] = 0.05
     return {"mode": "real", "pre": pre, "progs": progs, "backend": cfg.choice(["inotify", "inotify", "polling"]),
             "reentrant": rng.choice([None, None, "unschedule_all", "stop", "schedule"]), "watch": {"recursive": True, "root_kind": "str", "spelling": "abs", "observer_timeout": cfg.choice([1.0, 1.0, 0.25, 0.05])},
-            "faults": {"short_read": [rng.choice([32, 64, 0])]} if rng.random() < 0.3 else {}, "sched": sched}
+            "faults": {"short_read": [rng.choice([32, 64, 0])]} if rng.random() < 0.3 else {}, "sched": sched, "no_final_stop": cfg.random() < 0.5}
 
 
 def run_real_case(scn, case, sched_seed, trace):
@@ -136,7 +136,8 @@ def run_real_case(scn, case, sched_seed, trace):
             do(op, "A0")
         for t in others:
             sim.block(lambda t=t: t.state == DONE, why="join-actor")
-        do(["stop"], "A0")
+        if not (case.get("no_final_stop") and any(k == "stop" and exc is None for _, k, exc in res["calls"])):
+            do(["stop"], "A0")
         if state["started"]:
             obs.join()
         res["alive"] = [t.name for t in sim.tasks if t.kind == "lib" and t.state != DONE]
